@@ -57,14 +57,6 @@ PROPS["C14"] = {
           "CrLfCheckReader over chunks of %d+%d symbolic bytes: accepts iff no bare LF, data unchanged" % ab,
           ["packet::literal_data::CrLfCheckReader::{new,read}"], "chunks %d+%d" % ab)
         for ab in [(1, 1), (2, 1), (1, 2), (2, 2), (3, 2), (4, 0)]
-    ] + [
-        H("c14_utf8_%d_%d" % ab, "c14_lit", "quick" if sum(ab) <= 3 else "thorough", 900,
-          "Utf8CheckReader over chunks of %d+%d symbolic bytes then EOF: accepts iff concatenation is valid UTF-8" % ab,
-          ["packet::literal_data::Utf8CheckReader::{new,read}"], "chunks %d+%d" % ab)
-        for ab in [(1, 1), (2, 1), (1, 2), (2, 2), (1, 3), (3, 1)]
-    ] + [
-        H("c14_literal_from_str_3", "c14_lit", "quick", 900, "LiteralData::from_str on every 3-byte ASCII text stores the canonical form", ["packet::LiteralData::from_str", "normalize_lines::normalize_lines"], "L=3 ASCII"),
-        H("c14_literal_from_str_4", "c14_lit", "thorough", 1800, "LiteralData::from_str, 4 bytes", ["packet::LiteralData::from_str", "normalize_lines::normalize_lines"], "L=4 ASCII"),
     ],
 }
 
@@ -184,7 +176,6 @@ C05_CODEC = [
     H("c05_mpi_bits17_trunc", "c05_codec", "quick", 600, "MPI declared 17 bits, truncated, magnitude arbitrary: strip leading zeros, exact bit count, canonical identity", ["types::Mpi::{try_from_reader,to_writer,write_len}", "parsing_reader::BufReadParsing::take_bytes"], "17 bits, truncated"),
     H("c05_mpi_bits32", "c05_codec", "thorough", 600, "MPI declared 32 bits, magnitude arbitrary: strip leading zeros, exact bit count, canonical identity", ["types::Mpi::{try_from_reader,to_writer,write_len}", "parsing_reader::BufReadParsing::take_bytes"], "32 bits"),
     H("c05_mpi_bits16385", "c05_codec", "quick", 600, "MPI declared 16385 bits (over the 16384 cap), magnitude arbitrary: strip leading zeros, exact bit count, canonical identity", ["types::Mpi::{try_from_reader,to_writer,write_len}", "parsing_reader::BufReadParsing::take_bytes"], "16385 bits (over the 16384 cap)"),
-    H("c05_mpi_from_slice_3", "c05_codec", "quick", 900, "Mpi::from_slice on every 3-octet value (leading-zero cases)", ["types::Mpi::{from_slice,to_writer,try_from_reader}"], "3 octets"),
 ]
 C05_MUT = [
     H("c05_keyflags_setters", "c05_sigmut", "quick", 600, "KeyFlags built through every subset of setters: write_len == octets written, RFC bit positions", ["packet::KeyFlags::{default,set_*,to_writer,write_len}"], "10 symbolic booleans"),
